@@ -5,7 +5,7 @@ directory.  `write_fake_harness(W)` puts `harness.py` into W: every start append
 (argv, cwd, environ, pid, time) to W/starts.log, then looks up what to do in W/script.json:
 
   {"default": {...}, "by_key": {"<bench>:<inv>": {...}, "<bench>": {...}}}
-  behaviour: {"rc": 0, "out": "text printed", "sleep": 0.0, "block": "fifo path or null",
+  behaviour: {"rc": 0, "out": "text printed", "out_hex": "raw bytes printed after it", "sleep": 0.0, "block": "fifo path or null",
               "spawn": depth, "after": "text printed after sleep"}
 
 The harness is started as `<python> W/harness.py <bench> <inv> [more]`, so a suite command of
@@ -54,6 +54,10 @@ if out is None:
     out = "%s: iterations=1 runtime: %dus\n" % (bench or "B", 1000 * (int(inv) if inv.isdigit() else 1))
 sys.stdout.write(out)
 sys.stdout.flush()
+if b.get("out_hex"):
+    # raw bytes, e.g. ones that are not UTF-8
+    sys.stdout.buffer.write(bytes.fromhex(b["out_hex"]))
+    sys.stdout.buffer.flush()
 if b.get("block"):
     # announce, then wait until the controller writes a byte into the fifo
     with open(b["block"] + ".ready", "a") as f:
